@@ -424,8 +424,9 @@ func validateNatively(r *HarnessResult, n *Native, tier, replayDir string, probl
 	nv := len(vectors)
 	maxW := r.H.Int("nativewitness", tier, 150)
 	type wit struct {
-		p   symex.PathSummary
-		vec map[string]string
+		p     symex.PathSummary
+		vec   map[string]string
+		rerun bool
 	}
 	var wits []wit
 	for _, p := range r.Res.Paths {
@@ -433,16 +434,37 @@ func validateNatively(r *HarnessResult, n *Native, tier, replayDir string, probl
 			continue
 		}
 		vec := vectorFromModel(p.Inputs, p.Model, tier)
-		wits = append(wits, wit{p, vec})
+		wits = append(wits, wit{p: p, vec: vec})
 		vectors = append(vectors, vecForNative(r.H, vec, tier))
 	}
 	if len(vectors) == 0 {
 		return
 	}
-	outs, crash := n.Run(vectors)
-	if outs == nil {
-		*problems = append(*problems, r.H.Name+": native run failed: "+crash)
-		return
+	// every counterexample runs in a process of its own, the witnesses in one batch: package-level state
+	// of the repository (caches, pools, registries) survives from one vector to the next inside a process
+	var outs []nativeOut
+	crash := ""
+	for i := 0; i < nv; i++ {
+		o, c := n.Run(vectors[i : i+1])
+		if o == nil {
+			*problems = append(*problems, r.H.Name+": native run failed: "+c)
+			return
+		}
+		outs = append(outs, o[0])
+		if c != "" {
+			crash = c
+		}
+	}
+	if len(vectors) > nv {
+		o, c := n.Run(vectors[nv:])
+		if o == nil {
+			*problems = append(*problems, r.H.Name+": native run failed: "+c)
+			return
+		}
+		outs = append(outs, o...)
+		if c != "" && crash == "" {
+			crash = c
+		}
 	}
 	for i := range r.Violations {
 		v := &r.Violations[i]
@@ -499,7 +521,8 @@ func validateNatively(r *HarnessResult, n *Native, tier, replayDir string, probl
 		v.ReplayPath = rp
 	}
 	// translator validation on witnesses
-	for k, w := range wits {
+	for k := 0; k < len(wits); k++ {
+		w := wits[k]
 		o := outs[nv+k]
 		want := expectedObs(w.p)
 		var got []string
@@ -518,6 +541,15 @@ func validateNatively(r *HarnessResult, n *Native, tier, replayDir string, probl
 		}
 		if bad == "" && strings.Join(want, "\n") != strings.Join(got, "\n") {
 			bad = fmt.Sprintf("observations differ: symbolic %v native %v", want, got)
+		}
+		if bad != "" && !w.rerun {
+			// state left behind by an earlier vector of the batch? judge the vector in a fresh process
+			if o1, _ := n.Run([]map[string]interface{}{vectors[nv+k]}); o1 != nil {
+				outs[nv+k] = o1[0]
+				wits[k].rerun = true
+				k--
+				continue
+			}
 		}
 		if bad != "" {
 			if len(r.NativeBad) < 5 {
